@@ -47,6 +47,12 @@ def unit_rac(eng):
         ([".extern all\nx == 37\n", ".byte x\n"], "ok", "1f"),
         ([".extern all\na:: nop\n", "jmp a\n"], "ok", "a0007700faff"),
         ([".extern all\nq == 3\n", "q == 4\n"], "fail", None),
+        # '.extern all' AFTER the definitions: exports them too, and a name another file already exported is a duplicate, not a silent private symbol
+        (["x == 5\n", "x = 7\n.extern all\n", ".word x\n"], "fail", None),
+        (["x:: nop\n", "x: nop\n.extern all\n"], "fail", None),
+        (["q = 1\n.extern q\n", "Q = 2\n.extern ALL\n", ".byte q\n"], "fail", None),
+        (["x = 7\n.extern all\n", ".byte x\n"], "ok", "07"),
+        (["x = 7\n.extern all\n", "x = 6\n.byte x\n"], "ok", "06"),
     ]
     jobs = [{"kind": "asm", "sources": s} for s, _, _ in cases]
     res = driver.native(jobs, driver.tree_root())
